@@ -355,7 +355,9 @@ class MCNP_Problem:
                 ParticleTypeNotInCell,
             ) as e:
                 handle_error(e)
-        for input in self._data_inputs:
+        # Material.update_pointers removes the MT inputs it attaches from the list:
+        # iterate over a copy so that no input after such a material is skipped
+        for input in list(self._data_inputs):
             try:
                 input.update_pointers(self._data_inputs)
             except (
